@@ -33,7 +33,7 @@ import (
 
 // ---- mock application agent ----------------------------------------------------------------
 
-type c15Sync struct{ done chan struct{} }
+type c15Sync struct{ ack chan struct{} }
 
 func (c15Sync) Recipients() []bpv7.EndpointID { return nil }
 
@@ -55,7 +55,7 @@ func newC15Agent(eids ...bpv7.EndpointID) *c15Agent {
 				a.got = append(a.got, m.Bundle)
 				a.mu.Unlock()
 			case c15Sync:
-				close(m.done)
+				m.ack <- struct{}{}
 			case agent.ShutdownMessage:
 				return
 			}
@@ -77,19 +77,37 @@ func (a *c15Agent) drain() []bpv7.Bundle {
 // barrier: the mux delivers messages in order, so once the agent has seen the sentinel every
 // bundle delivered before it is in the inbox.
 func (n *c15Node) barrier() {
-	if n.agent == nil {
+	if len(n.agents) == 0 {
 		return
 	}
-	s := c15Sync{done: make(chan struct{})}
+	// every agent acknowledges the sentinel after everything it was sent before
+	s := c15Sync{ack: make(chan struct{}, len(n.agents))}
 	select {
 	case n.c.agentManager.mux.MessageReceiver() <- s:
 	case <-time.After(5 * time.Second):
 		return
 	}
-	select {
-	case <-s.done:
-	case <-time.After(5 * time.Second):
+	for range n.agents {
+		select {
+		case <-s.ack:
+		case <-time.After(5 * time.Second):
+			return
+		}
 	}
+}
+
+func (n *c15Node) drainAgents() []bpv7.Bundle {
+	var out []bpv7.Bundle
+	for _, a := range n.agents {
+		out = append(out, a.drain()...)
+	}
+	return out
+}
+
+func (n *c15Node) addAgent(eids ...bpv7.EndpointID) {
+	a := newC15Agent(eids...)
+	n.agents = append(n.agents, a)
+	n.c.RegisterApplicationAgent(a)
 }
 
 // ---- a receive-only convergence layer (its endpoint counts as one of the node's) --------------
@@ -144,11 +162,14 @@ func (s *c15Spy) drain() []bpv7.Bundle {
 type c15Node struct {
 	c     *Core
 	net   *verifNet
-	spy   *c15Spy
-	agent *c15Agent
-	dst1  *verifMockCLA
-	dst2  *verifMockCLA
-	desc  string // "node" line
+	spy    *c15Spy
+	agents []*c15Agent
+	dst1   *verifMockCLA
+	dst2   *verifMockCLA
+	peers  int
+	dir    string
+	id     string
+	desc   string // "node" line
 }
 
 var (
@@ -163,32 +184,68 @@ var (
 func e(s string) bpv7.EndpointID { return bpv7.MustNewEndpointID(s) }
 
 func newC15Node(dir, nodeId string, full bool) (*c15Node, error) {
-	c, err := verifNewCore(dir, nodeId, RoutingConf{Algorithm: "epidemic"})
-	if err != nil {
+	n := &c15Node{net: &verifNet{}, dir: dir, id: nodeId}
+	if err := n.open(); err != nil {
 		return nil, err
+	}
+	if full {
+		n.configure()
+		n.peersUp()
+	}
+	return n, nil
+}
+
+// open creates the Core on the node's directory (again, after a restart) and puts the spy in.
+func (n *c15Node) open() error {
+	c, err := verifNewCore(n.dir, n.id, RoutingConf{Algorithm: "epidemic"})
+	if err != nil {
+		return err
 	}
 	// the cron would re-dispatch pending bundles in the background every 10 s
 	c.cron.Unregister("pending_bundles")
 	c.cron.Unregister("clean_store")
-	n := &c15Node{c: c, net: &verifNet{}}
+	n.c = c
 	n.spy = &c15Spy{Algorithm: c.routing}
 	c.SetRoutingAlgorithm(n.spy)
-	if full {
-		n.agent = newC15Agent(e(c15AgentDst), e(c15AgentSvc))
-		c.RegisterApplicationAgent(n.agent)
-		c.claManager.RegisterEndpointID(cla.MTCP, e(c15Listener))
-		c.claManager.RegisterEndpointID(cla.TCPCLv4, e(c15Listener2))
-		c.claManager.Register(&c15Receiver{name: "a", eid: e(c15RcvAlias), ch: make(chan cla.ConvergenceStatus)})
-		rep := n.net.newCLA("rep", e("dtn://rep/"), true)
-		n.dst1 = n.net.newCLA("dst1", e("dtn://dst/"), true)
-		n.dst2 = n.net.newCLA("dst2", e("dtn://dst/"), true)
-		verifPeerUp(c, rep)
-		verifPeerUp(c, n.dst1)
-		verifPeerUp(c, n.dst2)
-		n.desc = fmt.Sprintf("node id=%s agents=%s,%s listeners=%s,%s receivers=%s",
-			nodeId, c15AgentDst, c15AgentSvc, c15Listener, c15Listener2, c15RcvAlias)
+	n.agents, n.dst1, n.dst2, n.peers = nil, nil, nil, 0
+	return nil
+}
+
+// configure registers everything Core.HasEndpoint looks at (the "node" line), but no peers.
+func (n *c15Node) configure() {
+	c := n.c
+	n.addAgent(e(c15AgentDst), e(c15AgentSvc))
+	c.claManager.RegisterEndpointID(cla.MTCP, e(c15Listener))
+	c.claManager.RegisterEndpointID(cla.TCPCLv4, e(c15Listener2))
+	c.claManager.Register(&c15Receiver{name: "a", eid: e(c15RcvAlias), ch: make(chan cla.ConvergenceStatus)})
+	n.desc = fmt.Sprintf("node id=%s agents=%s,%s listeners=%s,%s receivers=%s",
+		n.id, c15AgentDst, c15AgentSvc, c15Listener, c15Listener2, c15RcvAlias)
+}
+
+// peersUp registers the three mock CLAs without triggering checkPendingBundles.
+func (n *c15Node) peersUp() {
+	if n.peers > 0 {
+		return
 	}
-	return n, nil
+	rep := n.net.newCLA("rep", e("dtn://rep/"), true)
+	n.dst1 = n.net.newCLA("dst1", e("dtn://dst/"), true)
+	n.dst2 = n.net.newCLA("dst2", e("dtn://dst/"), true)
+	for _, m := range []*verifMockCLA{rep, n.dst1, n.dst2} {
+		n.c.claManager.Register(m)
+		n.c.routing.ReportPeerAppeared(m)
+		n.peers++
+	}
+}
+
+// restart closes the Core and opens a new one on the same directory: descriptors, receivers and
+// bundles then really come from the store.
+func (n *c15Node) restart() error {
+	n.c.Close()
+	if err := n.open(); err != nil {
+		return err
+	}
+	n.configure()
+	return nil
 }
 
 // ---- scenarios ---------------------------------------------------------------------------------
@@ -242,11 +299,32 @@ const (
 
 var c15Rcv = []string{"dtn:none", "dtn://node/", c15RcvAlias, c15AgentDst, "dtn://stranger/"}
 
+// The event of a "late" scenario happens on the retry-from-store path of a dedicated Core.
+const (
+	lateNone      = iota
+	lateForwarded // every CLA fails at first; they accept when checkPendingBundles runs
+	lateExpired   // lifetime over, but no peer at first (nothing is dispatched); peers appear later
+	lateHop       // hop limit reached, no peer at first; peers appear later
+	lateDelivered // nobody has the destination endpoint at first; an agent registers it later
+	lateAged      // clock-less bundle with an age block: every CLA fails at first; by the time of the
+	// retry its residence time exceeds the lifetime (forward: UpdateBundleAge >= Lifetime)
+)
+
+// lifetime of a lateAged subject and how long after its reception the retry happens
+const (
+	c15AgedLifetime = 3000
+	c15AgedWait     = 3300 * time.Millisecond
+)
+
+var c15LateDst = "dtn://late/box"
+
 type c15Sc struct {
 	idx      int
 	entry    string // recv | submit | foreign
 	dup      bool   // hand the same bundle to receive a second time afterwards
 	retry    int    // after an all-failed forward: re-dispatch from the store (1: CLAs accept now, 2: still fail)
+	late     int    // dedicated Core: the reporting event is reached only by checkPendingBundles (lateXxx)
+	restart  bool   // late: Close the Core and open a new one on the same directory before the retry
 	flags    uint64 // request flags, time flag, admin flag (fragment flag added from frag)
 	frag     bool
 	rto      int
@@ -370,6 +448,33 @@ func c15Scenarios(seed uint64, thorough bool) []c15Sc {
 			}
 		}
 	}
+	// (H) the reporting event happens when checkPendingBundles re-dispatches the bundle from the
+	// store (the descriptor is rebuilt from the stored, scrubbed ID), with and without a restart of
+	// the Core in between; fragments and whole bundles
+	selsH := []int{14, 30}
+	if thorough {
+		selsH = []int{2, 4, 8, 14, 30, 46}
+	}
+	for _, sel := range selsH {
+		for fr := 0; fr < 2; fr++ {
+			for late := lateForwarded; late <= lateAged; late++ {
+				if late == lateAged && !thorough && sel != 30 {
+					continue // each of these waits for three seconds
+				}
+				for rs := 0; rs < 2; rs++ {
+					d := dAllFailed
+					switch late {
+					case lateExpired:
+						d = dExpired
+					case lateHop:
+						d = dHop
+					}
+					add(c15Sc{entry: "recv", flags: c15FlagWord(sel), frag: fr == 1, rto: rtoPeer, dispatch: d,
+						late: late, restart: rs == 1, rcv: []int{rcvNone, rcvAlias}[(sel/16+fr+rs)%2]})
+				}
+			}
+		}
+	}
 	// (F) random scenarios
 	nRand := 500
 	if thorough {
@@ -444,6 +549,9 @@ func (s c15Sc) build(base bpv7.DtnTime) c15Subject {
 	default:
 		dst = "dtn://dst/x"
 	}
+	if s.late == lateDelivered {
+		dst = c15LateDst
+	}
 	src := "dtn://src/"
 	if s.entry == "submit" {
 		src = "dtn://node/src"
@@ -460,6 +568,10 @@ func (s c15Sc) build(base bpv7.DtnTime) c15Subject {
 	if s.entry == "recv" {
 		seq = uint64(s.idx % 3)
 	}
+	if s.late == lateAged {
+		// no clock at the source: creation time zero, the age is carried in a bundle age block
+		t, seq, lifetime = 0, uint64(s.idx), c15AgedLifetime
+	}
 	pb := bpv7.NewPrimaryBlock(flags, e(dst), e(src), bpv7.NewCreationTimestamp(t, seq), lifetime)
 	pb.ReportTo = e(c15Rto[s.rto].eid)
 	if s.frag {
@@ -472,6 +584,10 @@ func (s c15Sc) build(base bpv7.DtnTime) c15Subject {
 	}
 	cbs := []bpv7.CanonicalBlock{bpv7.NewCanonicalBlock(1, 0, bpv7.NewPayloadBlock(payload))}
 	no := uint64(2)
+	if s.late == lateAged {
+		cbs = append(cbs, bpv7.NewCanonicalBlock(no, 0, bpv7.NewBundleAgeBlock(0)))
+		no++
+	}
 	hop := s.dispatch == dHop
 	if hop {
 		cbs = append(cbs, bpv7.NewCanonicalBlock(no, 0, &bpv7.HopCountBlock{Limit: 3, Count: 3}))
@@ -567,10 +683,9 @@ func c15Key(b bpv7.Bundle) string {
 // bundles announced to the routing algorithm (creation order), other than the subject itself.
 // The mock CLAs' log and the agent's inbox give the subject's sends/deliveries and are
 // cross-checked: an administrative record seen there must be one of the announced reports.
-func (n *c15Node) collect(subject bpv7.BundleID) c15Obs {
+func (n *c15Node) collect(subject bpv7.BundleID, known map[string]bool) c15Obs {
 	n.barrier()
 	var o c15Obs
-	known := map[string]bool{}
 	for _, b := range n.spy.drain() {
 		if b.ID() == subject || !b.IsAdministrativeRecord() {
 			continue
@@ -605,15 +720,13 @@ func (n *c15Node) collect(subject bpv7.BundleID) c15Obs {
 			o.stray++
 		}
 	}
-	if n.agent != nil {
-		for _, b := range n.agent.drain() {
-			if b.ID() == subject {
-				o.delivered++
-				continue
-			}
-			if b.IsAdministrativeRecord() && !known[c15Key(b)] {
-				o.stray++
-			}
+	for _, b := range n.drainAgents() {
+		if b.ID() == subject {
+			o.delivered++
+			continue
+		}
+		if b.IsAdministrativeRecord() && !known[c15Key(b)] {
+			o.stray++
 		}
 	}
 	return o
@@ -648,11 +761,9 @@ func c15Cascade(rep c15Report, nodes []*c15Node, origin *c15Node) int {
 				count++
 			}
 		}
-		if n.agent != nil {
-			for _, b := range n.agent.drain() {
-				if isNew(b) {
-					count++
-				}
+		for _, b := range n.drainAgents() {
+			if isNew(b) {
+				count++
 			}
 		}
 	}
@@ -782,8 +893,7 @@ func TestVerifC15(t *testing.T) {
 			defer node.c.Close()
 			defer rnode.c.Close()
 			defer qnode.c.Close()
-			rnode.agent = newC15Agent(e("dtn://rep/r"))
-			rnode.c.RegisterApplicationAgent(rnode.agent)
+			rnode.addAgent(e("dtn://rep/r"))
 			verifPeerUp(rnode.c, rnode.net.newCLA("else", e("dtn://else/"), true))
 			verifPeerUp(qnode.c, qnode.net.newCLA("rep", e("dtn://rep/"), true))
 			verifPeerUp(qnode.c, qnode.net.newCLA("other", e("dtn://other/"), true))
@@ -799,10 +909,15 @@ func TestVerifC15(t *testing.T) {
 				// feeding reports back costs five more passes through a Core each: quick does it for a
 				// deterministic sixth of the scenarios, thorough (and a replay) for all
 				doCascade := thorough || only >= 0 || sc.idx%6 == int(seed%6)
-				line := c15Run(node, []*c15Node{rnode, qnode}, sc, base, doCascade)
+				line := c15Run(node, []*c15Node{rnode, qnode}, sc, base, doCascade,
+					fmt.Sprintf("%s/s%d-late%d", dir, sh, sc.idx))
 				outs[sh].lines = append(outs[sh].lines, line...)
 				histMu.Lock()
-				hist[sc.entry+"/"+c15DispatchNames[sc.dispatch]]++
+				if sc.late != lateNone {
+					hist[fmt.Sprintf("late%d/restart=%v", sc.late, sc.restart)]++
+				} else {
+					hist[sc.entry+"/"+c15DispatchNames[sc.dispatch]]++
+				}
 				histMu.Unlock()
 			}
 		}(sh)
@@ -833,9 +948,26 @@ func sortStrings(s []string) {
 }
 
 // c15Run executes one scenario (and, for dup, the second reception) and returns its lines.
-func c15Run(node *c15Node, feedback []*c15Node, sc c15Sc, base bpv7.DtnTime, doCascade bool) []string {
+func c15Run(node *c15Node, feedback []*c15Node, sc c15Sc, base bpv7.DtnTime, doCascade bool, lateDir string) []string {
 	sub := sc.build(base)
 	id := sub.b.ID()
+	if sc.late != lateNone {
+		// a Core of its own, so that the real checkPendingBundles concerns this bundle only
+		ln := &c15Node{net: &verifNet{}, dir: lateDir, id: c15NodeId}
+		if err := ln.open(); err != nil {
+			return []string{"# c15 late core: " + c15Blank.ReplaceAllString(err.Error(), "_")}
+		}
+		ln.configure()
+		if sc.late == lateForwarded || sc.late == lateAged {
+			ln.peersUp()
+		}
+		node = ln
+		doCascade = false
+		defer func() {
+			node.c.Close()
+			_ = os.RemoveAll(lateDir)
+		}()
+	}
 	// scripted answers of the two convergence layers towards the destination node
 	a1, a2 := true, true
 	switch sc.dispatch {
@@ -844,8 +976,10 @@ func c15Run(node *c15Node, feedback []*c15Node, sc c15Sc, base bpv7.DtnTime, doC
 	case dAllFailed:
 		a1, a2 = false, false
 	}
-	node.dst1.setDefault(a1)
-	node.dst2.setDefault(a2)
+	if node.dst1 != nil {
+		node.dst1.setDefault(a1)
+		node.dst2.setDefault(a2)
+	}
 
 	var blocks []string
 	for _, cb := range sub.b.CanonicalBlocks {
@@ -861,12 +995,37 @@ func c15Run(node *c15Node, feedback []*c15Node, sc c15Sc, base bpv7.DtnTime, doC
 	destLocal := sc.dispatch == dDelivered || sc.dispatch == dNoAgent
 
 	want := c15DispatchNames[sc.dispatch]
+	expiredNow := sub.expired
+	// reports announced in an earlier phase of this scenario may reach a CLA in a later one
+	known := map[string]bool{}
 	one := func(entry string) string {
 		// leftovers of an earlier scenario must not be attributed to this one
 		node.net.drain(false)
-		node.agent.drain()
+		node.drainAgents()
 		node.spy.drain()
 		panicked := ""
+		// On the retry path the descriptor is rebuilt from the store: its receiver is whatever the
+		// stored item has (the property is only written by a Sync that finds constraints, so a bundle
+		// that was never dispatched after its reception has none).
+		rcv := c15Rcv[sc.rcv]
+		loadable := 1
+		if entry == "retry" || entry == "pending" {
+			rcv = "dtn:none"
+			if bi, err := node.c.store.QueryId(id.Scrub()); err == nil {
+				if v, ok := bi.Properties["bundlepack/receiver"]; ok {
+					rcv = v.(bpv7.EndpointID).String()
+				}
+				// the stored bytes are validated when they are loaded (Bundle.UnmarshalCbor ends in
+				// CheckValid): a bundle whose lifetime (by its creation time) is over, or one with the
+				// administrative flag plus request flags, does not come back and is not dispatched
+				d := NewBundleDescriptor(bi.BId, node.c.store)
+				if _, err := d.Bundle(); err != nil {
+					loadable = 0
+				}
+			}
+		} else if entry != "recv" && entry != "dup" {
+			rcv = "dtn:none"
+		}
 		t0 := bpv7.DtnTimeNow()
 		func() {
 			defer func() {
@@ -880,13 +1039,18 @@ func c15Run(node *c15Node, feedback []*c15Node, sc c15Sc, base bpv7.DtnTime, doC
 			case "recv", "dup":
 				verifReceive(node.c, cp, e(c15Rcv[sc.rcv]))
 			case "retry":
-				// the body of checkPendingBundles' loop for this one bundle
-				node.c.dispatching(NewBundleDescriptor(id, node.c.store))
+				// the body of checkPendingBundles' loop for this one bundle: the descriptor is built
+				// from the ID the STORE has for it (BundleItem.BId, without the fragment fields)
+				if bi, err := node.c.store.QueryId(id.Scrub()); err == nil {
+					node.c.dispatching(NewBundleDescriptor(bi.BId, node.c.store))
+				}
+			case "pending":
+				node.c.checkPendingBundles()
 			default:
 				node.c.SendBundle(&cp)
 			}
 		}()
-		obs := node.collect(id)
+		obs := node.collect(id, known)
 		t1 := bpv7.DtnTimeNow()
 		stored := node.stored(id)
 		var reps []string
@@ -911,19 +1075,49 @@ func c15Run(node *c15Node, feedback []*c15Node, sc c15Sc, base bpv7.DtnTime, doC
 			}
 			return 0
 		}
-		rcv := c15Rcv[sc.rcv]
-		if entry != "recv" && entry != "dup" && entry != "retry" {
-			rcv = "dtn:none"
-		}
-		line := fmt.Sprintf("sc n=%d entry=%s want=%s flags=%d frag=%s src=%s ts=%d:%d dst=%s rto=%s rcv=%s blocks=%s self=%d destlocal=%d hop=%d expired=%d sends=%d:%d dlv=%d stored=%d t0=%d t1=%d undec=%d stray=%d reports=%s cascade=%s",
+		line := fmt.Sprintf("sc n=%d entry=%s want=%s flags=%d frag=%s src=%s ts=%d:%d dst=%s rto=%s rcv=%s blocks=%s self=%d destlocal=%d peers=%d loadable=%d hop=%d expired=%d sends=%d:%d dlv=%d stored=%d t0=%d t1=%d undec=%d stray=%d reports=%s cascade=%s",
 			sc.idx, entry, want, uint64(p.BundleControlFlags), c15Frag(p.BundleControlFlags.Has(bpv7.IsFragment), p.FragmentOffset, p.TotalDataLength),
 			p.SourceNode, p.CreationTimestamp[0], p.CreationTimestamp[1], p.Destination, p.ReportTo, rcv, blk,
-			b2i(c15Rto[sc.rto].self), b2i(destLocal), b2i(sub.hop), b2i(sub.expired),
+			b2i(c15Rto[sc.rto].self), b2i(destLocal), node.peers, loadable, b2i(sub.hop), b2i(expiredNow),
 			obs.okSends, obs.failSends, obs.delivered, b2i(stored), uint64(t0), uint64(t1), obs.undecodable, obs.stray, rs, casc)
 		if panicked != "" {
 			line += " panic=" + panicked
 		}
 		return line
+	}
+
+	if sc.late != lateNone {
+		if sc.late != lateForwarded && sc.late != lateAged {
+			want = "notdispatched"
+		}
+		received := time.Now()
+		lines := []string{one("recv")}
+		if !node.stored(id) {
+			return append(lines, fmt.Sprintf("# c15 late scenario n=%d: the bundle was not kept", sc.idx))
+		}
+		if sc.restart {
+			if err := node.restart(); err != nil {
+				return append(lines, "# c15 restart: "+c15Blank.ReplaceAllString(err.Error(), "_"))
+			}
+		}
+		if sc.late == lateDelivered {
+			node.addAgent(e(c15LateDst))
+			destLocal = true
+		}
+		node.peersUp()
+		node.dst1.setDefault(true)
+		node.dst2.setDefault(true)
+		want = []string{"", "fwdboth", "any", "hop", "delivered", "expired"}[sc.late]
+		if sub.b.CheckValid() != nil {
+			want = "any"
+		}
+		if sc.late == lateAged {
+			if d := c15AgedWait - time.Since(received); d > 0 {
+				time.Sleep(d)
+			}
+			expiredNow = true
+		}
+		return append(lines, one("pending"))
 	}
 
 	entry := sc.entry
